@@ -762,9 +762,24 @@ func runChains(c *mon.Case) {
 		}
 		c.Count("chain:alphabet-given")
 	}
+	// a last block of residues that spells a number for strconv.ParseFloat (NAN, INF, INFINITY are residues)
+	tailWord := ""
+	if len(alphaFlag) == 0 && r.Chance(0.12) {
+		if strings.HasPrefix(alpha, "ACGT") {
+			tailWord = r.PickStr([]string{"NAN", "nan", "NaN"})
+		} else {
+			tailWord = r.PickStr([]string{"INF", "NAN", "INFINITY", "inf"})
+		}
+		L = 10*r.Range(0, 12) + len(tailWord) // the word is a block of its own in phylip (10 residue blocks)
+		c.Count("chain:last-block-spells-a-float")
+	}
 	rows := make(gen.Rows, n)
 	for i := range rows {
-		rows[i] = gen.Seq{Name: r.Str(r.Range(1, 9), "abcXYZ019_") + gen.Itoa(i), Seq: r.Str(L, alpha)}
+		q := r.Str(L, alpha)
+		if tailWord != "" && (i == 0 || r.Bool()) {
+			q = q[:L-len(tailWord)] + tailWord
+		}
+		rows[i] = gen.Seq{Name: r.Str(r.Range(1, 9), "abcXYZ019_") + gen.Itoa(i), Seq: q}
 	}
 	src := filepath.Join(dir, "src.fa")
 	writeFasta(src, rows)
@@ -823,7 +838,7 @@ func mustRead(p string) []byte { b, _ := os.ReadFile(p); return b }
 
 // ---------------------------------------------------------------- bootstrap consistency
 
-var bootModels = []string{"pdist", "jc", "k2p", "f81", "f84", "tn93", "rawdist"}
+var bootModels = []string{"pdist", "jc", "k2p", "f81", "f84", "tn93", "rawdist", "lg", "wag", "jtt"}
 
 func runBoot(c *mon.Case) {
 	r := c.R
@@ -840,7 +855,14 @@ func runBoot(c *mon.Case) {
 	if r.Chance(0.3) && model != "pdist" && model != "rawdist" {
 		extra = append(extra, "--alpha", "0.8")
 	}
-	c.Input(map[string]interface{}{"model": model, "seed": seed, "nboot": nb, "extra": extra, "rows": in.ntRows})
+	protein := model == "lg" || model == "wag" || model == "jtt"
+	if protein {
+		in.nt = in.aa // same checks on the protein alignment (gaps and X in some rows only)
+		if c.Idx%2 == 0 && len(extra) == 0 {
+			extra = append(extra, "-r")
+		}
+	}
+	c.Input(map[string]interface{}{"model": model, "seed": seed, "nboot": nb, "extra": extra, "rows": in.ntRows, "protein": protein})
 	bin := binary()
 	db := run(bin, dir, 0, append(a("build", "distboot", "-i", in.nt, "-n", fmt.Sprint(nb), "-m", model, "--seed", seed, "-t", r.PickStr([]string{"1", "3"})), extra...))
 	if db.exit != 0 {
@@ -924,7 +946,7 @@ func main() {
 	mon.Main("C11", []mon.Sub{
 		{Name: "commands", Quick: 3 * len(table), Thorough: 8 * len(table), Run: runCommands},
 		{Name: "chains", Quick: 240, Thorough: 4000, Run: runChains},
-		{Name: "boot", Quick: 28, Thorough: 280, Run: runBoot},
+		{Name: "boot", Quick: 40, Thorough: 400, Run: runBoot},
 		{Name: "race-cli", Quick: 0, Thorough: 2 * len(table), Run: runRaceCLI},
 	})
 }
